@@ -50,7 +50,7 @@ def main():
         shutil.rmtree(os.path.join(wt, "demo"), ignore_errors=True)
         shutil.copytree(demo, os.path.join(wt, "demo"), ignore=shutil.ignore_patterns("target"))
         demo_cmd = f"cd {wt}/demo && cargo run --offline -q 2>&1 | tail -15; exit ${{PIPESTATUS[0]}}"
-        for script in ("run.sh", "check.sh"):
+        for script in ("run.sh", "check.sh", "run_demo.sh"):
             if os.path.exists(os.path.join(demo, script)):
                 demo_cmd = f"cd {wt}/demo && bash {script} 2>&1 | tail -15; exit ${{PIPESTATUS[0]}}"
     else:
